@@ -16,7 +16,7 @@ func TestCheck(t *testing.T) {
 	r := vkit.Start(t, "C08", "exploration")
 	defer r.Finish()
 
-	r.Rule("Grid: transport path (plain UDP against five servers with MaxUDPRespSize 512/1024/1232/4096/65535, TCP, DoT, DoQ, " +
+	r.Rule("Grid: transport path (plain UDP against six servers with MaxUDPRespSize 0/512/1024/1232/4096/65535, TCP, DoT, DoQ, " +
 		"DoH h2 POST/GET, h1 POST, plain-HTTP POST, h3 in the thorough tier, DNSCrypt UDP/TCP) x advertised EDNS size " +
 		"{no OPT,0,511,512,513,1232,4096,65535} x request option subset (16 subsets of DO, padding, keep-alive, NSID 0/5/50/200, " +
 		"cookie, ECS) x TTL field of the request OPT (plain, EDNS version 1/2/255, extended RCODE, Z bits, all three; sampled per cell and " +
@@ -34,6 +34,8 @@ func TestCheck(t *testing.T) {
 	r.Assume("ecs-cache phase: the handler is ecscache.NewMiddleware (context with agd.RequestInfo, Cloner shared with the servers' Disposer) over a scripted upstream answering with H8's responses; " +
 		"every name is asked three times (miss, then hits over other transports / advertised sizes); responses are judged against the request the client sent; record TTLs are not compared there (the cache counts them down)")
 	r.Assume("a handler that is not part of the repository and edits the request object before passing it to WriteMsg is outside the quantifier (the ResponseWriter contract makes the request it is given the client's request); the repository's own middlewares are inside, hence the ecs-cache phase")
+	r.Assume("a configured maximum of 0 (the zero value of ConfigDNS.MaxUDPRespSize, which is all a direct user of the package gets; its doc comment names no default) is a configured maximum like any other: the statement's formula gives the bound max(512, min(advertised, 0)) = 512")
+	r.Assume("silent-handler cells: the handler returns nil or an error WITHOUT writing; the plain UDP/TCP/DoT servers document silence / closing the connection for nil and DoH answers HTTP 500, which are recorded as no-response; every DNS response a server generates itself (SERVFAIL) is judged by the OPT, size, padding and keep-alive rules like any other")
 	r.Assume("the client's UDP size = the CLASS field of the request's OPT, verbatim (normalize documents reqOpt.UDPSize())")
 	r.Assume("DNSCrypt has no configured maximum (the server passes 65535); its bound is max(512, advertised), compared with the decrypted, unpadded DNS message, which is exact")
 	r.Assume("the plain-HTTP DoH instance (meant to sit behind a TLS terminator) counts as DoH, i.e. as an encrypted transport, for the padding rule")
@@ -273,6 +275,13 @@ func TestCheck(t *testing.T) {
 	r.Require("ecs_cache:miss:"+famDCUDP, int64(r.N(40, 400)))
 	r.Require("ecs_cache:hit:"+famUDP, int64(r.N(150, 1500)))
 	r.Require("ecs_cache:hit:"+famTCP, int64(r.N(15, 150)))
+	for _, f := range []string{famDoQ, famDCUDP, famDCTCP} {
+		r.Require("silent_handler:nil:answered:"+f+":query-with-opt", 6)
+	}
+	for _, f := range []string{famUDP, famTCP, famDoT, famDoQ, famDoH, famDCUDP, famDCTCP} {
+		r.Require("silent_handler:error:answered:"+f+":query-with-opt", 6)
+	}
+	r.Require("udp_configured_max_0:advertised>512-and-answer>512:judged", 60)
 	r.Require("keepalive_returned:"+famTCP, 5)
 	r.Require("keepalive_returned:"+famDoT, 5)
 	r.Require("padding_added:"+famDoT, 10)
